@@ -1,6 +1,6 @@
 (* C19 -- with a proxy configured, nothing is sent to the target before the tunnel is up.  Statements only. *)
 From Coq Require Import String.
-From Coq Require Import List NArith.
+From Coq Require Import List NArith ZArith.
 From Coq.Strings Require Import Byte.
 From Model Require Import Bytes Parser Response Conn Proxy.
 From Proofs Require Import ParserFacts ProxyFacts.
@@ -26,6 +26,23 @@ Theorem C19_tunnel_needs_complete_block : forall script s, px_ok s -> negotiate 
   exists d s1 x s2 r, In (RData d) script /\ px_pull s1 d = Item x s2 r.
 Proof. exact negotiate_tunnel_needs_item. Qed.
 Print Assumptions C19_tunnel_needs_complete_block.
+
+(* the whole attempt: with a proxy configured the session either goes on like a direct connection over the tunnel, or like
+   a failed connect, or is still waiting for the proxy -- and for EVERY application strategy, configuration and script, the
+   upgrade request is written only if the negotiation produced the tunnel, i.e. (by the two theorems above) only after a
+   complete header block with status 200 *)
+Theorem C19_request_only_over_tunnel : forall cf app c0 script steps b,
+  (forall b', ~ In (TWriteReq b') (k_tr c0)) ->
+  In (TWriteReq b) (k_tr (run_via_proxy cf app c0 script steps)) -> negotiate script px_init = PxTunnel.
+Proof. exact request_only_over_tunnel. Qed.
+Print Assumptions C19_request_only_over_tunnel.
+
+Example C19_request_nonvacuous :
+  In (TWriteReq true) (k_tr (run_via_proxy (Build_cfg 5%Z 30%Z None true None []) (fun _ => []) (init [] [] [] [])
+                               [RData (str "HTTP/1.1 200 OK"%string ++ CRLFCRLF)] [])) /\
+  ~ In (TWriteReq true) (k_tr (run_via_proxy (Build_cfg 5%Z 30%Z None true None []) (fun _ => []) (init [] [] [] [])
+                               [RData (str "HTTP/1.1 407 No"%string ++ CRLFCRLF)] [])).
+Proof. vm_compute. split; [tauto|]. intros H. repeat (destruct H as [H|H]; [discriminate|]). exact H. Qed.
 
 (* an unterminated, empty or failing answer never opens the tunnel *)
 Example C19_failures :
